@@ -36,6 +36,8 @@
 
 #include <libcellml>
 
+#include "utilities.h"
+
 #include "forkrun.hpp"
 
 using namespace verif;
@@ -638,6 +640,15 @@ static void describeModel(const libcellml::ModelPtr &m, const char *label)
         o << (i ? "," : "") << "{\"name\":" << jstr(u->name()) << ",\"import\":" << (u->isImport() ? 1 : 0) << ",\"refs\":[";
         for (size_t k = 0; k < u->unitCount(); ++k) {
             o << (k ? "," : "") << jstr(u->unitAttributeReference(k));
+        }
+        o << "],\"dangling\":[";   // references that are neither a standard unit name nor a units of this model
+        bool firstD = true;
+        for (size_t k = 0; k < u->unitCount(); ++k) {
+            std::string ref = u->unitAttributeReference(k);
+            if (!libcellml::isStandardUnitName(ref) && !m->hasUnits(ref)) {
+                o << (firstD ? "" : ",") << jstr(ref);
+                firstD = false;
+            }
         }
         o << "]}";
     }
